@@ -236,6 +236,7 @@ class ElementParser:
 
         node = parse_tag(token, namespace, self.restricted_namespace)
 
+        unclosed = 0
         while self.index:
             name, pos = self.index.pop()
             if name == node['name']:
@@ -243,8 +244,14 @@ class ElementParser:
                 children = self.queue[pos:]
                 del self.queue[pos:]
                 break
+            unclosed += 1
         else:
             raise ParseError("Unexpected end tag.", token)
+
+        # Each start tag that is implicitly closed here also pushed a
+        # namespace map; its prefix bindings end with it.
+        if unclosed:
+            del self.namespaces[-unclosed:]
 
         return "element", (start, node, children)
 
